@@ -535,7 +535,10 @@ class Evaluator:
             return self.call(n, env)
         if isinstance(n, ast.Lambda):
             return Closure(n, env, self)
-        if isinstance(n, (ast.ListComp, ast.GeneratorExp)):
+        if isinstance(n, ast.GeneratorExp):
+            r = self.comp(n, env)
+            return r if isinstance(r, TList) else OneShot(r)  # a generator expression yields its items once
+        if isinstance(n, ast.ListComp):
             return self.comp(n, env)
         if isinstance(n, ast.SetComp):
             fake = ast.ListComp(elt=n.elt, generators=n.generators)
@@ -565,18 +568,21 @@ class Evaluator:
     def comp(self, n: ast.AST, env: Dict[str, Any]) -> List[Any]:
         out: List[Any] = []
 
-        def rec(i: int, env: Dict[str, Any]) -> None:
+        # one scope for the whole comprehension, as in Python: the loop variables are *rebound* in it, so a lambda or nested def
+        # created inside sees the value current when it is called (late binding), not the one at its creation
+        scope = dict(env)
+
+        def rec(i: int) -> None:
             if i == len(n.generators):  # type: ignore[attr-defined]
-                out.append(self.eval(n.elt, env))  # type: ignore[attr-defined]
+                out.append(self.eval(n.elt, scope))  # type: ignore[attr-defined]
                 return
             g = n.generators[i]  # type: ignore[attr-defined]
-            for item in self.iterate(self.eval(g.iter, env)):
-                e2 = dict(env)
-                self.bind(g.target, item, e2)
-                if all(self.truth(self.eval(c, e2)) for c in g.ifs):
-                    rec(i + 1, e2)
+            for item in self.iterate(self.eval(g.iter, scope)):
+                self.bind(g.target, item, scope)
+                if all(self.truth(self.eval(c, scope)) for c in g.ifs):
+                    rec(i + 1)
 
-        rec(0, env)
+        rec(0)
         if isinstance(n, ast.ListComp) and len(n.generators) == 1:
             try:
                 src = self.eval(n.generators[0].iter, env)
@@ -956,16 +962,25 @@ class Evaluator:
                 if not isinstance(extra, dict):
                     raise Undecided("** of abstract value")
                 kwargs.update(extra)
-        if d == "sum" and f is self.funcs.get(d) and args and any(isinstance(x, Obj) for x in self.iterate(args[0])):
-            acc = args[1] if len(args) > 1 else 0
-            for x in self.iterate(args[0]):
-                acc = self.binop(ast.Add(), acc, x, n)
-            return acc
+        if d == "sum" and f is self.funcs.get(d) and args:
+            items = self.iterate(args[0])  # once: a generator argument is exhausted by this
+            args = [items] + list(args[1:])
+            if any(isinstance(x, Obj) for x in items):
+                acc = args[1] if len(args) > 1 else 0
+                for x in items:
+                    acc = self.binop(ast.Add(), acc, x, n)
+                return acc
         if d == "sorted" and f is self.funcs.get(d) and args and isinstance(args[0], (set, frozenset)):
             return sorted(args[0], **kwargs)
         if d in _ITER_BUILTINS and f is self.funcs.get(d):
             args = [self.iterate(a) if isinstance(a, Obj) and a.resolver is not None and "leaf" not in a.attrs else a for a in args]
-        return f(*args, **kwargs)
+        r = f(*args, **kwargs)
+        if d in _CONSUMERS and f is self.funcs.get(d):
+            # a generator / map / zip object handed to a consuming builtin is exhausted afterwards
+            for a in args:
+                if isinstance(a, OneShot):
+                    a.clear()
+        return r
 
     def _class_names(self, cls: ast.AST, env: Dict[str, Any]) -> List[str]:
         """the class names an isinstance() second argument stands for; a name bound to a tuple of classes (a module-level
@@ -1171,28 +1186,37 @@ class Evaluator:
                     break
         elif isinstance(st, ast.Try):
             try:
-                self.block(st.body, env)
-            except Raised as ex:
-                for h in st.handlers:
-                    names = []
-                    if h.type is None:
-                        names = ["*"]
-                    elif isinstance(h.type, ast.Tuple):
-                        names = [norm(e).split(".")[-1] for e in h.type.elts]
+                try:
+                    self.block(st.body, env)
+                except (Raised, IndexOutOfRange) as ex:
+                    # an out-of-range subscript is Python's IndexError to a handler
+                    kind = "IndexError" if isinstance(ex, IndexOutOfRange) else ex.what.split("(")[0].split(".")[-1]
+                    kinds = {kind, "Exception", "BaseException"}
+                    todo = [kind]
+                    while todo:
+                        for parent in _EXC_PARENTS.get(todo.pop(), ()):
+                            if parent not in kinds:
+                                kinds.add(parent)
+                                todo.append(parent)
+                    for h in st.handlers:
+                        if h.type is None:
+                            names = ["*"]
+                        elif isinstance(h.type, ast.Tuple):
+                            names = [norm(e).split(".")[-1] for e in h.type.elts]
+                        else:
+                            names = [norm(h.type).split(".")[-1]]
+                        if "*" in names or kinds & set(names):
+                            if h.name:
+                                env[h.name] = Tag(kind)
+                            self.block(h.body, env)
+                            break
                     else:
-                        names = [norm(h.type).split(".")[-1]]
-                    kind = ex.what.split("(")[0].split(".")[-1]
-                    if "*" in names or kind in names or "Exception" in names or "BaseException" in names:
-                        if h.name:
-                            env[h.name] = Tag(kind)
-                        self.block(h.body, env)
-                        break
+                        raise
                 else:
-                    self.block(st.finalbody, env)
-                    raise
-            else:
-                self.block(st.orelse, env)
-            self.block(st.finalbody, env)
+                    self.block(st.orelse, env)
+            finally:
+                # runs on every way out of the statement: normal completion, return / break / continue, a handled or unhandled exception
+                self.block(st.finalbody, env)
         else:
             raise Undecided(f"statement form {type(st).__name__}")
 
@@ -1218,7 +1242,15 @@ class IndexOutOfRange(Exception):
 
 FELL = Tag("FELL-OFF-END")
 
-_ITER_BUILTINS = {"enumerate", "zip", "map", "sum", "all", "any", "reversed", "min", "max", "sorted", "set", "itertools.chain"}
+_EXC_PARENTS = {"IndexError": ("LookupError",), "KeyError": ("LookupError",), "ZeroDivisionError": ("ArithmeticError",),
+                "OverflowError": ("ArithmeticError",), "UnicodeError": ("ValueError",), "UnicodeDecodeError": ("UnicodeError",),
+                "UnicodeEncodeError": ("UnicodeError",), "NotImplementedError": ("RuntimeError",), "RecursionError": ("RuntimeError",),
+                "ModuleNotFoundError": ("ImportError",), "FileNotFoundError": ("OSError",), "PermissionError": ("OSError",),
+                "JSONDecodeError": ("ValueError",), "StopIteration": (), "Z3Exception": ()}
+
+_CONSUMERS = {"list", "tuple", "set", "frozenset", "sorted", "sum", "min", "max", "any", "all", "enumerate", "zip", "map", "filter", "dict",
+              "itertools.chain", "itertools.chain.from_iterable", "chain.from_iterable", "math.prod", "prod", "functools.reduce", "reduce", "deque", "collections.deque", "Counter", "collections.Counter"}
+_ITER_BUILTINS = {"enumerate", "zip", "map", "sum", "all", "any", "reversed", "min", "max", "sorted", "set", "itertools.chain", "itertools.chain.from_iterable", "chain.from_iterable"}
 
 _SAFE_METHODS = {
     "str": ("format", "join", "split", "strip", "startswith", "endswith", "lower", "upper", "isdigit", "index",
@@ -1250,6 +1282,10 @@ def _bound(base: Any, name: str) -> Callable[..., Any]:
             if name == "join":
                 args = (list(args[0]),)
         r = getattr(base, name)(*args, **kwargs)
+        if name in ("join", "extend", "update", "__iadd__"):
+            for a in args:
+                if isinstance(a, OneShot):
+                    a.clear()  # consumed by the method
         if name in ("items", "keys", "values"):
             return list(r)
         return r
@@ -1438,6 +1474,9 @@ BUILTINS: Dict[str, Callable[..., Any]] = {
     "copy.copy": lambda x: __import__("copy").copy(x),
     "iter": lambda x: list(x),
     "itertools.chain": lambda *xs: [y for x in xs for y in x],
+    "itertools.chain.from_iterable": lambda xs: [y for x in xs for y in x],
+    "chain.from_iterable": lambda xs: [y for x in xs for y in x],
+    "math.gcd": lambda *a: __import__("math").gcd(*a),
     "itertools.product": lambda *xs, repeat=1: [tuple(t) for t in itertools.product(*[list(x) for x in xs], repeat=repeat)],
     "itertools.combinations": lambda xs, r: [tuple(t) for t in itertools.combinations(list(xs), r)],
     "itertools.permutations": lambda xs, r=None: [tuple(t) for t in itertools.permutations(list(xs), r)],
